@@ -33,8 +33,8 @@ func harnessC05Panics() {
 	n := vInt(1, N)
 	type hd struct {
 		once, async, seq, ctxAware, panics bool
-		pv                                  int
-		fired                               bool
+		pv                                 int
+		fired                              bool
 	}
 	hs := make([]*hd, n)
 	var plainT, ctxT reflect.Type
